@@ -289,6 +289,7 @@ struct Extractor {
             else
                 O["kind"] = "global";
             if (VD->getType().isConstQualified()) O["constq"] = true;
+            if (VD->getTLSKind() != VarDecl::TLS_None) O["tls"] = true;
             if (const DeclContext *DC = VD->getParentFunctionOrMethod())
                 if (auto *FD = dyn_cast<FunctionDecl>(DC)) O["fn"] = frefId(FD);
         } else if (auto *FD = dyn_cast<FieldDecl>(D)) {
@@ -402,6 +403,15 @@ struct Extractor {
                 !isa<CharacterLiteral>(E)) {
                 Expr::EvalResult R;
                 if (E->EvaluateAsInt(R, Ctx, Expr::SE_NoSideEffects)) O["cv"] = (int64_t)R.Val.getInt().getExtValue();
+            }
+            if (!E->isValueDependent() && !E->isTypeDependent() && E->getType()->isRealFloatingType() && E->isPRValue() &&
+                !isa<FloatingLiteral>(E)) {
+                llvm::APFloat FV(0.0);
+                if (E->EvaluateAsFloat(FV, Ctx, Expr::SE_NoSideEffects)) {
+                    bool lose = false;
+                    FV.convert(llvm::APFloat::IEEEdouble(), llvm::APFloat::rmNearestTiesToEven, &lose);
+                    O["fv"] = FV.convertToDouble();
+                }
             }
         }
 
@@ -719,8 +729,12 @@ public:
         if (const FunctionDecl *Pat = FD->getTemplateInstantiationPattern()) L = Pat->getLocation();
         if (!X.inRoots(L)) return true;
         // ODR bookkeeping: definitions written in headers
-        bool templated = FD->isTemplated() || FD->isTemplateInstantiation() ||
-                         FD->getTemplatedKind() != FunctionDecl::TK_NonTemplate || FD->isDependentContext();
+        // a definition is exempt from the one-definition rule across TUs when it is a template (dependent) or an implicit /
+        // explicit *instantiation* of one; a full explicit specialisation is an ordinary function and is NOT implicitly inline
+        TemplateSpecializationKind TSK = FD->getTemplateSpecializationKind();
+        bool templated = FD->isTemplated() || FD->isDependentContext() || TSK == TSK_ImplicitInstantiation ||
+                         TSK == TSK_ExplicitInstantiationDeclaration || TSK == TSK_ExplicitInstantiationDefinition;
+        if (TSK == TSK_Undeclared && FD->getTemplatedKind() == FunctionDecl::TK_MemberSpecialization) templated = true;
         bool inClass = isa<CXXMethodDecl>(FD) && !FD->isOutOfLine();
         if (isa<CXXMethodDecl>(FD) && cast<CXXMethodDecl>(FD)->getParent()->isLambda()) {
             // lambdas have no linkage issue
